@@ -65,6 +65,25 @@ pub(super) fn stub_read(_f: &mut File, buf: &mut [u8]) -> std::io::Result<usize>
     }
 }
 
+/// same as stub_read, copying element by element: keeps planted constants (length fields) visible to
+/// CBMC's constant propagation, which a memcpy-style copy_from_slice loses
+pub(super) fn stub_read_bytewise(_f: &mut File, buf: &mut [u8]) -> std::io::Result<usize> {
+    unsafe {
+        if DISK_POS >= DISK as u64 {
+            return Ok(0);
+        }
+        let pos = DISK_POS as usize;
+        let n = if buf.len() < DISK - pos { buf.len() } else { DISK - pos };
+        let mut i = 0;
+        while i < n {
+            buf[i] = DISK_BYTES[pos + i];
+            i += 1;
+        }
+        DISK_POS += n as u64;
+        Ok(n)
+    }
+}
+
 pub(super) fn stub_sync_all(_f: &File) -> std::io::Result<()> {
     if !io_tick() {
         return Err(std::io::Error::from(std::io::ErrorKind::Other));
@@ -600,3 +619,151 @@ zero_header_bytes!(wal_zero_header_bytes_pos64, SIZE - 48);
 zero_header_bytes!(wal_zero_header_bytes_pos65, SIZE - 47);
 zero_header_bytes!(wal_zero_header_bytes_pos111, SIZE - 1);
 zero_header_bytes!(wal_zero_header_bytes_pos112, SIZE);
+
+// ---------------------------------------------------------------------------------------------
+// A-CODEC (scan side), by layout: scan_records on region images with a CONCRETE record layout (lengths and
+// positions fixed per harness; sequences, payload bytes, checksums' inputs and all remaining bytes symbolic)
+// returns exactly what the spec scan sp::scan returns for that layout - the records in order with their
+// payloads, the end cursor, or an error for a bad checksum / impossible length.  Loop-free hash stand-in
+// (payloads <= 4 bytes) and a small unwind bound keep CBMC's drop-glue recursion in check; the fully
+// symbolic variant above (wal_scan_matches_spec_*) does not answer within the caps.
+// STATUS: these layout harnesses do not answer within 600 s either (CBMC cannot bound std's
+// default_read_exact loop through the read stub); NOT REGISTERED, kept for a later session.  A-CODEC(scan)
+// therefore remains an assumption (DESIGN.md section 3, C05).
+pub(super) fn stub_hash4(data: &[u8]) -> blake3::Hash {
+    let mut h = [0u8; 32];
+    let n = data.len();
+    h[0] = n as u8;
+    if n > 0 {
+        h[1] = data[0];
+    }
+    if n > 1 {
+        h[2] = data[1];
+    }
+    if n > 2 {
+        h[3] = data[2];
+    }
+    if n > 3 {
+        h[31] = data[3];
+    }
+    blake3::Hash::from_bytes(h)
+}
+
+/// write a length field and a VALID checksum for the record at region position `c` (payload bytes stay symbolic)
+fn plant_record(c: usize, len: usize) {
+    unsafe {
+        let a = OFF as usize + c;
+        let lb = (len as u32).to_le_bytes();
+        DISK_BYTES[a + 8] = lb[0];
+        DISK_BYTES[a + 9] = lb[1];
+        DISK_BYTES[a + 10] = lb[2];
+        DISK_BYTES[a + 11] = lb[3];
+        let mut p = [0u8; 4];
+        let mut i = 0;
+        while i < len && i < 4 {
+            p[i] = DISK_BYTES[a + 48 + i];
+            i += 1;
+        }
+        let h = stub_hash4(&p[..len]);
+        let mut j = 0;
+        while j < 32 {
+            DISK_BYTES[a + 16 + j] = h.as_bytes()[j];
+            j += 1;
+        }
+    }
+}
+fn plant_zero_header(c: usize) {
+    unsafe {
+        let a = OFF as usize + c;
+        let mut i = 0;
+        while i < 12 {
+            DISK_BYTES[a + i] = 0;
+            i += 1;
+        }
+    }
+}
+fn disk_seq(c: usize) -> u64 {
+    unsafe { le64(&DISK_BYTES[OFF as usize + c..OFF as usize + c + 8]) }
+}
+fn disk_byte(c: usize) -> u8 {
+    unsafe { DISK_BYTES[OFF as usize + c] }
+}
+
+macro_rules! scan_layout {
+    ($name:ident, $size:expr, $setup:block, $check:expr) => {
+        #[kani::proof]
+        #[kani::stub(<std::fs::File as std::io::Seek>::seek, stub_seek)]
+        #[kani::stub(<std::fs::File as std::io::Read>::read, stub_read_bytewise)]
+        #[kani::stub(blake3::hash, stub_hash4)]
+        #[kani::unwind(50)]
+        fn $name() {
+            any_disk();
+            $setup;
+            let mut f = fake_file();
+            let got = EmbeddedWal::scan_records(&mut f, OFF, $size);
+            let check: fn(Result<(Vec<ScannedRecord>, u64)>) = $check;
+            check(got);
+            core::mem::forget(f);
+        }
+    };
+}
+
+fn expect_records(got: Result<(Vec<ScannedRecord>, u64)>, layout: &[(usize, usize)], end: u64) {
+    match got {
+        Ok((recs, next)) => {
+            assert!(recs.len() == layout.len(), "exactly the planted records are returned");
+            assert!(next == end, "the end cursor is where the spec scan stops");
+            let mut i = 0;
+            while i < layout.len() {
+                let (c, len) = layout[i];
+                assert!(recs[i].sequence == disk_seq(c), "sequence as stored");
+                assert!(recs[i].total_size == 48 + len as u64 && recs[i].payload.len() == len, "sizes as stored");
+                let mut k = 0;
+                while k < len {
+                    assert!(recs[i].payload[k] == disk_byte(c + 48 + k), "payload bytes as stored");
+                    k += 1;
+                }
+                i += 1;
+            }
+        }
+        Err(_) => assert!(false, "a well-formed log must scan"),
+    }
+}
+
+// one valid record, then the region is too short for another header
+scan_layout!(wal_scan_layout_one_then_short_tail, 64, { plant_record(0, 3); }, |g| expect_records(g, &[(0, 3)], 51));
+// one valid record that fills the region exactly
+scan_layout!(wal_scan_layout_exact_fit, 52, { plant_record(0, 4); }, |g| expect_records(g, &[(0, 4)], 52));
+// one valid record, then a zero header (whatever follows it)
+scan_layout!(wal_scan_layout_one_then_sentinel, 112, { plant_record(0, 3); plant_zero_header(51); }, |g| expect_records(g, &[(0, 3)], 51));
+// two valid records, then a short tail
+scan_layout!(wal_scan_layout_two, 112, { plant_record(0, 3); plant_record(51, 2); }, |g| expect_records(g, &[(0, 3), (51, 2)], 101));
+// zero header at the start: empty log whatever the rest of the region holds
+scan_layout!(wal_scan_layout_empty, 112, { plant_zero_header(0); }, |g| expect_records(g, &[], 0));
+// region smaller than a header
+scan_layout!(wal_scan_layout_tiny_region, 40, {}, |g| expect_records(g, &[], 0));
+// a record whose checksum differs from the hash of its payload in any one byte is an error
+scan_layout!(wal_scan_layout_bad_checksum, 112, {
+    plant_record(0, 3);
+    let k: usize = kani::any();
+    kani::assume(k < 32);
+    unsafe { DISK_BYTES[OFF as usize + 16 + k] ^= 0x10; }
+}, |g| assert!(g.is_err(), "checksum mismatch is reported"));
+// a second record with a bad checksum poisons the scan even after a good first record
+scan_layout!(wal_scan_layout_bad_second, 112, {
+    plant_record(0, 3);
+    plant_record(51, 2);
+    unsafe { DISK_BYTES[OFF as usize + 51 + 48] ^= 0x01; }
+}, |g| assert!(g.is_err(), "corrupt payload of the second record is reported"));
+// a length that does not fit the region is an error (one byte too long), the exact fit is not (above)
+scan_layout!(wal_scan_layout_len_too_long, 52, {
+    plant_record(0, 4);
+    unsafe { DISK_BYTES[OFF as usize + 8] = 5; }
+}, |g| assert!(g.is_err(), "record running past the region end is reported"));
+// length 0 with a non-zero sequence is an error, not an end marker
+scan_layout!(wal_scan_layout_len_zero_seq_nonzero, 112, {
+    plant_zero_header(0);
+    let s: u8 = kani::any();
+    kani::assume(s != 0);
+    unsafe { DISK_BYTES[OFF as usize + 3] = s; }
+}, |g| assert!(g.is_err(), "zero length with a sequence number is corruption"));
